@@ -232,7 +232,8 @@ def clang_check(cpp):
     with tempfile.TemporaryDirectory(prefix="c06-") as d:
         p = os.path.join(d, "sketch.cpp")
         open(p, "w").write(cpp)
-        cmd = ["clang++", "--target=avr", "-std=gnu++17", "-fsyntax-only", "-Wno-everything", "-I", os.path.join(ROOT, "cxxvc"), p]
+        # diagnostics that C++ compilers treat as errors by default (e.g. `return;` in a value-returning function) stay errors: no -w / -Wno-everything
+        cmd = ["clang++", "--target=avr", "-std=gnu++17", "-fsyntax-only", "-I", os.path.join(ROOT, "cxxvc"), p]
         r = subprocess.run(cmd, capture_output=True, text=True, timeout=120)
         return r.returncode == 0, r.stderr[-600:]
 
